@@ -64,3 +64,8 @@ CORPUS += [
     M("extra-flag-on-eco-bit", C, "        self.follow_me = False\n", "        self.follow_me = False\n        self.dry_clean = False\n",
       also=[(C, "            eco | purifier | force_aux_heat | aux_heat,", "            eco | purifier | force_aux_heat | aux_heat | (0x80 if self.dry_clean else 0),")]),
 ]
+# round 11: the control command is a snapshot of the attributes taken before apply() first suspends
+CORPUS += [
+    M("apply-suspends-before-snapshot", "msmart/device/AC/device.py", "        cmd = SetStateCommand()\n", "        await self.refresh()\n        cmd = SetStateCommand()\n"),
+    M("n-apply-logs-before-snapshot", "msmart/device/AC/device.py", "        cmd = SetStateCommand()\n", "        _LOGGER.debug(\"Applying state to device %s.\", self.id)\n        cmd = SetStateCommand()\n", "S"),
+]
